@@ -809,6 +809,9 @@ pub struct Pair {
 	pub down: Option<Down>,
 	/// step at which B learned the preimage from downstream, and how
 	pub learned: Option<(u64, &'static str)>,
+	/// step at which a downstream preimage spend was mined (kept even when the preimage was already known by
+	/// message: knowledge by message can die with the process, the chain's does not)
+	pub revealed_on_chain: Option<u64>,
 	pub up_fulfill_emit: Option<u64>,
 	pub up_fulfill_delivered: Option<u64>,
 	pub up_fail_emit: Option<u64>,
@@ -1231,6 +1234,11 @@ impl FwdOracle {
 							.collect();
 						for h in lost {
 							let p = self.pairs.get_mut(&h).unwrap();
+							if let Some(t) = p.revealed_on_chain {
+								// the downstream preimage spend is in the chain: the closed channel's monitor has it
+								p.learned = Some((t, "chain"));
+								continue;
+							}
 							p.learned = None;
 							p.knowledge_lost = true;
 							self.stats.knowledge_lost += 1;
@@ -1287,6 +1295,20 @@ impl FwdOracle {
 		Ok(())
 	}
 
+	/// The funding output of channel `ci` was spent by B's own commitment transaction, which B handed to the
+	/// broadcaster while monitor updates of that channel were still InProgress, and B was later restarted from an
+	/// image of that monitor older than one of those updates.
+	fn own_commitment_lost_after_restart(&self, sim: &Sim, ci: usize) -> bool {
+		let Some((t, _)) = self.spent.get(&funding_outpoint(sim, ci)).cloned() else { return false };
+		let Some(rec) = self.commits.get(&t) else { return false };
+		if rec.broadcaster != side_of(sim, ci, B) {
+			return false;
+		}
+		let Some(s_b) = self.b_broadcast.get(&t) else { return false };
+		let inflight: Vec<u64> = self.b_async_spans.get(&ci).map(|v| v.iter().filter(|(_, a, d)| a < s_b && d.map(|d| d > *s_b).unwrap_or(true)).map(|(id, _, _)| *id).collect()).unwrap_or_default();
+		self.b_restarts.iter().any(|(rs, ids)| rs > s_b && ids.iter().any(|(c, used)| *c == ci && inflight.iter().any(|id| id > used)))
+	}
+
 	fn on_mined_tx(&mut self, _sim: &Sim, at: u64, tx: &Transaction, _height: u32) {
 		let txid = tx.compute_txid();
 		// a spend carrying a preimage of a forwarded payment
@@ -1309,6 +1331,9 @@ impl FwdOracle {
 					// the next hop claimed the downstream HTLC on chain: B's monitor sees the preimage in this block
 					let inflight = !self.b_inflight.is_empty();
 					let p = self.pairs.get_mut(&h).unwrap();
+					if p.revealed_on_chain.is_none() {
+						p.revealed_on_chain = Some(at);
+					}
 					if p.learned.is_none() {
 						p.learned = Some((at, "chain"));
 						p.async_pending_at_learn = inflight;
@@ -1469,11 +1494,15 @@ impl FwdOracle {
 				let first = p.up_fail_emit.is_none();
 				self.pairs.get_mut(&p.hash).unwrap().up_fail_emit.get_or_insert(at);
 				if let Some((t, how)) = p.learned {
+					// listed finding, other symptom of the same root cause as the ledger key: the downstream channel was
+					// closed by B's own commitment, broadcast while monitor updates were in flight, and B then restarted
+					// from a monitor image that does not know that commitment: it cannot see the preimage spend
+					let lost = p.down.as_ref().map(|d| self.own_commitment_lost_after_restart(sim, d.chan)).unwrap_or(false);
 					return Err(fail(
 						"failed-upstream-with-preimage",
 						format!("B sent update_fail_htlc upstream (chan {} id {}) at step {} although it had learned the preimage from downstream ({}) at step {}", chan, id, at, how, t),
 					)
-					.with_key("failed-upstream-with-preimage"));
+					.with_key(if lost && how == "chain" { "failed-upstream-with-preimage/own-commitment-unknown-to-monitor-after-restart" } else { "failed-upstream-with-preimage" }));
 				}
 				let Some(d) = &p.down else {
 					if first {
@@ -1580,6 +1609,7 @@ impl FwdOracle {
 								is_forward,
 								down: None,
 								learned: None,
+								revealed_on_chain: None,
 								up_fulfill_emit: None,
 								up_fulfill_delivered: None,
 								up_fail_emit: None,
